@@ -8,7 +8,7 @@
     GENERATED from the live class hierarchy (Gen/Pipeline.v: [exn_bases]). *)
 From SpyneV Require Export Base.Prelude.
 
-Inductive exn :=
+Inductive pyexn :=
 (* builtins *)
 | EException | EValueError | ETypeError | EAttributeError | ELookupError | EKeyError | EIndexError
 | EArithmeticError | EOverflowError | EUnicodeError | EUnicodeDecodeError | EUnicodeEncodeError
@@ -28,7 +28,7 @@ Inductive exn :=
 (* model artefact: the recursion fuel of a modelled function ran out (never a Python exception) *)
 | EOutOfFuel.
 
-Definition exn_tag (e : exn) : Z :=
+Definition exn_tag (e : pyexn) : Z :=
   match e with
   | EException => 0 | EValueError => 1 | ETypeError => 2 | EAttributeError => 3 | ELookupError => 4
   | EKeyError => 5 | EIndexError => 6 | EArithmeticError => 7 | EOverflowError => 8
@@ -44,12 +44,12 @@ Definition exn_tag (e : exn) : Z :=
   | ESchemaValidationError => 40 | EMessagePackDecodeError => 41 | ERedirect => 42
   | EOutOfFuel => 43
   end.
-Definition exn_eq (a b : exn) : bool := exn_tag a =? exn_tag b.
+Definition exn_eq (a b : pyexn) : bool := exn_tag a =? exn_tag b.
 
 (** outcome of a modelled Python function *)
 Inductive res (A : Type) :=
 | Ret (a : A)
-| Raise (e : exn) (code : text).
+| Raise (e : pyexn) (code : text).
 Arguments Ret {A} a.
 Arguments Raise {A} e code.
 
@@ -60,24 +60,24 @@ Notation "'let!' x ':=' e 'in' f" := (rbind e (fun x => f))
 
 (** what the body of an [except] clause does, as far as the translator recognises it *)
 Inductive haction :=
-| HFault (cls : exn) (code : text)   (* raise <Fault subclass>(...) / raise Fault('code', ...) *)
+| HFault (cls : pyexn) (code : text)   (* raise <Fault subclass>(...) / raise Fault('code', ...) *)
 | HReraise                           (* raise  /  raise e *)
 | HOther.                            (* anything else: the model spells it out at the use site *)
-Record handler := mkh { h_classes : list exn; h_action : haction }.
+Record handler := mkh { h_classes : list pyexn; h_action : haction }.
 
-Definition mem_exn (e : exn) (l : list exn) : bool := existsb (exn_eq e) l.
+Definition mem_exn (e : pyexn) (l : list pyexn) : bool := existsb (exn_eq e) l.
 
 Section WithHierarchy.
   (** proper ancestors of a class among the modelled classes (generated) *)
-  Variable bases : exn -> list exn.
+  Variable bases : pyexn -> list pyexn.
 
   (** isinstance(exception of class e, c) *)
-  Definition isinst (e c : exn) : bool := exn_eq e c || mem_exn c (bases e).
+  Definition isinst (e c : pyexn) : bool := exn_eq e c || mem_exn c (bases e).
   (** does [except (c1, ..., cn)] catch an exception of class e *)
-  Definition catches (cs : list exn) (e : exn) : bool := existsb (isinst e) cs.
+  Definition catches (cs : list pyexn) (e : pyexn) : bool := existsb (isinst e) cs.
 
   (** first handler of a try statement that catches e *)
-  Fixpoint find_handler (hs : list handler) (e : exn) : option handler :=
+  Fixpoint find_handler (hs : list handler) (e : pyexn) : option handler :=
     match hs with
     | [] => None
     | h :: r => if catches (h_classes h) e then Some h else find_handler r e
@@ -85,7 +85,7 @@ Section WithHierarchy.
 
   (** [try: x  except ...] where every handler body is one the translator understood; a handler
       whose action is HOther is given by [other] *)
-  Definition try_ {A} (hs : list handler) (x : res A) (other : exn -> text -> res A) : res A :=
+  Definition try_ {A} (hs : list handler) (x : res A) (other : pyexn -> text -> res A) : res A :=
     match x with
     | Ret a => Ret a
     | Raise e c =>
@@ -118,7 +118,7 @@ Definition is_client (code : text) : bool :=
   text_eqb code t_Client || prefix_of (t_Client ++ [46]) code.
 
 (** an optional guard of the form [if <test>: raise <Fault>(...)] found (or not) in a function *)
-Record guard := mkguard { g_present : bool; g_cls : exn; g_code : text }.
+Record guard := mkguard { g_present : bool; g_cls : pyexn; g_code : text }.
 
 (** the call skeleton of ServerBase.generate_contexts / get_in_object (the calls inside the try
     body, in order) and of WsgiApplication.handle_rpc, as the translator reads them *)
